@@ -203,6 +203,108 @@ example : selStep (.list [.cell (.int 1), .cell (.int 2)]) (.idx 1)
     (.list [.cell (.int 7), .dict [("k", .tuple [.cell (.int 8)])], .cell (.str "ab")]) =
     .list [.cell (.int 7), .dict [("k", .tuple [.cell (.int 8)])], .cell (.str "ab")] := by decide +kernel
 
+/-- **Everything else is broadcast** (dicts): a companion that holds no dict with the key set of the looped dict,
+at any depth, is passed whole to every value — whatever else it holds (`c.KeysNodup`: python dicts). -/
+theorem selStep_broadcast_dict (kvs : KW) (k : String) (c : Val) (hc : c.KeysNodup)
+    (h : ∀ q cs, c.at q = some (.dict cs) → sortStr (keysOf cs) ≠ sortStr (keysOf kvs)) :
+    selStep (.dict kvs) (.key k) c = c := by
+  simp only [selStep]
+  exact itemByKey_no_match k _ _ c (Nat.le_refl _) hc h
+
+example : selStep (.dict [("a", .cell (.int 1)), ("b", .cell (.int 2))]) (.key "b")
+    (.dict [("a", .cell (.int 7)), ("z", .dict [("b", .cell (.int 8))])]) =
+    .dict [("a", .cell (.int 7)), ("z", .dict [("b", .cell (.int 8))])] := by decide +kernel
+
+/-- … but a companion of another length / with other keys that HOLDS a matching container further inside is not
+broadcast: the code looks inside it (finding K3).  "Everything else is broadcast" is false of the code there; this
+is the witness: `loop(list)(f)([1, 2], [[10, 20], [30, 40], [50, 60]])` gives the first leaf `[10, 30, 50]`, and
+`loop(dict)(f)({'a': 1}, {'z': {'a': 5}})` gives the leaf `{'z': 5}`. -/
+theorem broadcast_searched_inside :
+    (∃ (xs cs : List Val) (i : Nat), cs.length ≠ xs.length ∧ selStep (.list xs) (.idx i) (.list cs) ≠ .list cs) ∧
+    (∃ (kvs cs : KW) (k : String), sortStr (keysOf cs) ≠ sortStr (keysOf kvs) ∧
+      selStep (.dict kvs) (.key k) (.dict cs) ≠ .dict cs) := by
+  refine ⟨⟨[.cell (.int 1), .cell (.int 2)],
+      [.list [.cell (.int 10), .cell (.int 20)], .list [.cell (.int 30), .cell (.int 40)],
+       .list [.cell (.int 50), .cell (.int 60)]], 0, by decide, by decide +kernel⟩,
+    ⟨[("a", .cell (.int 1))], [("z", .dict [("a", .cell (.int 5))])], "a", by decide +kernel, by decide +kernel⟩⟩
+
+/-! ### same shape ⇒ element by element, through every level
+
+`Matches v c`: the companion `c` has the shape of `v` as far as it goes — a scalar (broadcast from there on), or a
+list/tuple of the same length / a dict with the same key set whose members match the members of `v`.
+`follow c p` walks `c` along the path `p` until it reaches a scalar. -/
+
+def seqItems : Val → Option (List Val)
+  | .list xs => some xs
+  | .tuple xs => some xs
+  | _ => Option.none
+
+inductive Matches : Val → Val → Prop
+  | scalar (v : Val) (a : Cell) : Matches v (.cell a)
+  | seq {v c : Val} {xs cs : List Val} : seqItems v = some xs → seqItems c = some cs → cs.length = xs.length →
+      (∀ (i : Nat) (x y : Val), xs[i]? = some x → cs[i]? = some y → Matches x y) → Matches v c
+  | dict {kvs cs : KW} : sortStr (keysOf cs) = sortStr (keysOf kvs) →
+      (∀ (k : String) (x y : Val), kvs.lookup k = some x → cs.lookup k = some y → Matches x y) →
+      Matches (.dict kvs) (.dict cs)
+
+def follow : Val → Path → Val
+  | c, [] => c
+  | .cell a, _ :: _ => .cell a
+  | c, s :: p => match c.child s with
+    | some c' => follow c' p
+    | Option.none => c
+
+/-- **Companions of the same shape are matched element by element (dicts by key) at every level**: the leaf of
+`v` at path `p` receives the part of `c` at the same path (or the scalar at which `c` stops on the way). -/
+theorem select_matches : ∀ (p : Path) (v c : Val), Matches v c → (v.at p).isSome → select v p c = follow c p
+  | [], v, c, _, _ => by simp [select, follow]
+  | s :: p, v, c, h, hp => by
+      cases hv : v.child s with
+      | none => simp [Val.at, hv] at hp
+      | some v' =>
+        have hp' : (v'.at p).isSome := by simpa [Val.at, hv] using hp
+        rw [select_step v v' s p c hv]
+        cases h with
+        | scalar _ a =>
+          have : selStep v s (.cell a) = .cell a := by
+            cases v <;> cases s <;> simp [selStep, itemByI, itemByKey]
+          rw [this, select_scalar]
+          simp [follow]
+        | @seq _ _ xs cs hxs hcs hl hm =>
+          -- `v` is a list or a tuple, so the step is an index below the common length
+          obtain ⟨i, rfl, hxi⟩ : ∃ i, s = .idx i ∧ xs[i]? = some v' := by
+            cases v <;> cases s <;> simp_all [seqItems, Val.child]
+          have hi : i < cs.length := by
+            have := (List.getElem?_eq_some_iff.1 hxi).1; omega
+          have hci : cs[i]? = some cs[i] := List.getElem?_eq_getElem hi
+          have hget : getIdx cs i = cs[i] := by simp [getIdx, hi]
+          have hsel : selStep v (.idx i) c = cs[i] := by
+            rw [← hget]
+            cases v <;> cases c <;> simp_all [seqItems, selStep, itemByI]
+          have hch : c.child (.idx i) = some cs[i] := by
+            cases c <;> simp_all [seqItems, Val.child]
+          rw [hsel, select_matches p v' cs[i] (hm i v' cs[i] hxi hci) hp']
+          cases c <;> simp_all [follow, seqItems]
+        | @dict kvs cs hk hm =>
+          obtain ⟨k, rfl, hxk⟩ : ∃ k, s = .key k ∧ kvs.lookup k = some v' := by
+            cases s <;> simp_all [Val.child]
+          have hmem : k ∈ keysOf cs := by
+            rw [← mem_sortStr, hk, mem_sortStr]; exact mem_keys_of_lookup k v' kvs hxk
+          obtain ⟨y, hy⟩ := lookup_isSome_of_mem_keys k cs hmem
+          have hsel : selStep (.dict kvs) (.key k) (.dict cs) = y := by
+            simp [selStep, itemByKey, hk, getKey, hy]
+          rw [hsel, select_matches p v' y (hm k v' y hxk hy) hp']
+          simp [follow, Val.child, hy]
+
+/-- non-vacuity: a two-level structure, a companion of the same shape (tuple for list, keys in another order,
+a scalar standing for a whole sub-list) -/
+example :
+    let v : Val := .list [.dict [("a", .cell (.int 1)), ("b", .list [.cell (.int 2), .cell (.int 3)])], .cell (.int 4)]
+    let c : Val := .tuple [.dict [("b", .cell (.str "s")), ("a", .cell (.int 10))], .cell (.int 40)]
+    select v [.idx 0, .key "b", .idx 1] c = .cell (.str "s") ∧ follow c [.idx 0, .key "b", .idx 1] = .cell (.str "s") ∧
+    select v [.idx 0, .key "a"] c = .cell (.int 10) := by
+  decide +kernel
+
 /-- the first argument may be passed by keyword under the name of the function's first parameter -/
 theorem call_first_by_keyword (f : LeafFn) (top : String) (v : Val) (kw : KW)
     (h : top ∉ keysOf kw) :
